@@ -10,6 +10,8 @@ case args: workers=<N> peers0=<n|f> ncfg=<m> c0=<cfg> … c<m-1>=<cfg>
 ops: get <w> <enc env> | peers <n> | peersfail | setcfg <j> | clear | wreload <w> | cget <enc env> <k>
      cget = k fresh workers at once; the model takes one linearisation: for i < k: wreload (100+i); get (100+i) env
      obs of cget: r=<slot ids>/<slot ids>/… (one list per worker) p=… c=… g=…
+     feed <w> <enc env> <n> : get, then every dynsampler behind the worker's sampler counts n more events;
+       every obs ends with f=<id:events counted,…> for the registered instances
      peerset <n> | peersetfail | peercb : membership change and its callback as separate steps
      peercb2 <n2> : two overlapping callbacks around a change to n2 peers; the list is read under the factory
        mutex, so the commit order is the read order: model = peercb; peerset n2; peercb
@@ -117,7 +119,8 @@ def tailStr (st : St) : String :=
     match AList.get st.reg k with
     | some id => (id, s!"{id}/{c}")
     | none => (1 <<< 30, s!"?/{c}"))
-  s!"p={st.peerCount} c={joinC (c.map (·.2))} g={joinC (g.map (·.2))}"
+  let f := sortRows (st.reg.map fun (_, id) => (id, s!"{id}:{(AList.get st.fed id).getD 0}"))
+  s!"p={st.peerCount} c={joinC (c.map (·.2))} g={joinC (g.map (·.2))} f={joinC (f.map (·.2))}"
 
 def slotStr (st : St) (slots : List Slot) : String :=
   let s := slots.map fun sl => match sl.id with | some id => toString id | none => "-"
@@ -183,6 +186,19 @@ def oStep (o : OSt) (op : List String) (exts : List (List String)) : OSt × Opti
           | none => "nil"
         ({ o with st := st' }, some ("r=" ++ "/".intercalate lists ++ " " ++ tailStr st'))
     | none => (o, some "bad-op")
+  | ["feed", w, e, n] =>
+    match w.toNat?, n.toNat? with
+    | some w, some n =>
+      if w ≥ o.workers then (o, some "bad-op") else
+      let env := dec e
+      match AList.get o.st.caches (w, env), lookupCfg o.st.cfg env with
+      | none, none => (o, some "exit")
+      | _, _ =>
+        let st' := step o.cfgs o.st (.feed w env n)
+        match AList.get st'.caches (w, env) with
+        | some ent => ({ o with st := st' }, some (slotStr st' ent.slots ++ " " ++ tailStr st'))
+        | none => (o, some "bad-op")
+    | _, _ => (o, some "bad-op")
   | ["peerset", n] => match n.toNat? with | some n => go (.peerset n) | none => (o, some "bad-op")
   | ["peersetfail"] => go .peersetFail
   | ["peercb"] => go .peercb
@@ -242,6 +258,7 @@ structure MSt where
   peers : Option Nat                   -- the property's "current number of peers"; none = cannot be told from the ops
   src : Option Nat                     -- what the peer source answers now
   dirty : Bool := false                -- the source changed and the callback has not run yet
+  fedExp : List (Nat × Nat) := []      -- instance ↦ events fed into it so far (from the feed ops and their observed slots)
   cached : List (Nat × Str) := []      -- which (worker, key) pairs hold a cached sampler (from the ops alone)
   seen : List MSlot := []              -- sampler slots built since the last ClearDynsamplers, with the observed instance
   oldIds : List Nat := []              -- instances observed before the last ClearDynsamplers
@@ -366,7 +383,7 @@ def monCallback (m : MSt) : MSt :=
               else { m with peers := if m.dirty then none else m.peers, dirty := false }
   | none => { m with peers := if m.dirty then none else m.peers, dirty := false }
 
-def mStep (m : MSt) (op : List String) (exts : List (List String)) (obs : Option String) : MSt × List Fail :=
+def mStep0 (m : MSt) (op : List String) (exts : List (List String)) (obs : Option String) : MSt × List Fail :=
   let o := obs.getD ""
   if o.startsWith "panic" then
     (m, [{ prop := "C12", sig := "C12:panic", what := o }, { prop := "C13", sig := "C13:panic", what := o }])
@@ -434,6 +451,12 @@ def mStep (m : MSt) (op : List String) (exts : List (List String)) (obs : Option
   | ["peersfail"] =>
     let m' := monCallback { m with src := none }
     (m', c13Check m' goals)
+  | ["feed", w, e, _] =>
+    match w.toNat?, kv toks "s" with
+    | some w, some s =>
+      let (m', f) := monGet m w (dec e) e s
+      (m', f ++ c13Check m' goals)
+    | _, _ => (m, [])
   | ["peerset", n] => ({ m with src := some (n.toNat?.getD 0), dirty := true }, [])
   | ["peersetfail"] => ({ m with src := none, dirty := true }, [])
   | ["peercb"] =>
@@ -451,6 +474,52 @@ def mStep (m : MSt) (op : List String) (exts : List (List String)) (obs : Option
     let m' := monWreload m (w.toNat?.getD 0)
     (m', c13Check m' goals)
   | _ => (m, [])
+
+def kindStr (k : Kind) : String := match k with
+  | .dynamic => "dynamic" | .emadynamic => "emadynamic" | .total => "totalthroughput"
+  | .emathroughput => "emathroughput" | .windowed => "windowedthroughput" | .determ => "deterministic"
+
+/-- f=<id:n,…> -/
+def parseCounts (s : String) : List (Nat × Nat) :=
+  if s == "-" then [] else (s.splitOn ",").filterMap fun t =>
+    match t.splitOn ":" with
+    | [i, n] => match i.toNat?, n.toNat? with | some i, some n => some (i, n) | _, _ => none
+    | _ => none
+
+/-- state continuity: what has been fed into an instance is still counted by it, whatever other
+workers did in the meantime (the cases are far shorter than any clearing interval) -/
+def mStep (m : MSt) (op : List String) (exts : List (List String)) (obs : Option String) : MSt × List Fail :=
+  let (m1, fs) := mStep0 m op exts obs
+  let toks := (obs.getD "").splitOn " "
+  -- a feed adds to the expectation of every instance behind the worker's sampler
+  let m2 := match op with
+    | ["feed", _, _, n] =>
+      match kv toks "s" with
+      | some s =>
+        let n := n.toNat?.getD 0
+        let ids := (s.splitOn ",").filterMap String.toNat?
+        { m1 with fedExp := ids.foldl (fun l id =>
+            match l.find? (·.1 == id) with
+            | some (_, c) => (id, c + n) :: l.filter (·.1 != id)
+            | none => (id, n) :: l) m1.fedExp }
+      | none => m1
+    | _ => m1
+  let counts := parseCounts ((kv toks "f").getD "-")
+  let bad := counts.filterMap fun (id, c) =>
+    match m2.fedExp.find? (·.1 == id) with
+    | some (_, want) => if c < want then some (id, c, want) else none
+    | none => none
+  match bad with
+  | [] => (m2, fs)
+  | (id, c, want) :: _ =>
+    let kind := match m2.seen.find? (·.id == id) with | some sl => kindStr sl.d.kind | none => "unknown"
+    let byWorker := match op with
+      | "get" :: _ => true | "cget" :: _ => true | "feed" :: _ => true | "reload" :: _ => true | _ => false
+    let sig := if byWorker then s!"C12:shared-state-reset-by-another-worker:{kind}" else s!"C12:shared-state-lost:{kind}"
+    -- report once: afterwards the expectation follows what the instance holds
+    let m3 := { m2 with fedExp := m2.fedExp.map fun (i, w) =>
+      match counts.find? (·.1 == i) with | some (_, c') => (i, min w c') | none => (i, w) }
+    (m3, fs ++ [mk "C12" sig s!"instance {id} had counted {want} events fed by its workers, after `{" ".intercalate op}` it holds {c}"])
 
 def comp : Component OSt MSt where
   init := oInit
